@@ -41,6 +41,10 @@ type Check struct {
 	Workers int
 	// Bounds describes the bound per tier (goes into evidence).
 	Bounds map[string]string
+	// WorkerEnv returns extra environment for worker processes (runDir is private to the run).
+	WorkerEnv func(runDir string) []string
+	// WorkerProcs is GOMAXPROCS for workers (0 = 1).
+	WorkerProcs int
 }
 
 // Violation is one oracle failure.
@@ -136,6 +140,16 @@ func (c *Ctx) Violation(kind, where, trigger, detail string) {
 	if c.emitViol != nil {
 		c.emitViol(v)
 	}
+}
+
+// ViolationFor reports an oracle failure attributed to another (more specific, replayable) case,
+// e.g. one schedule of an exploration case.
+func (c *Ctx) ViolationFor(cs Case, kind, where, trigger, detail string) {
+	prev, prevJSON := c.cur, c.curJSON
+	c.cur = cs
+	c.curJSON = func() json.RawMessage { return JSON(cs) }
+	c.Violation(kind, where, trigger, detail)
+	c.cur, c.curJSON = prev, prevJSON
 }
 
 // Hash is the 64-bit FNV-1a hash used for sharding and distinct counting.
